@@ -91,15 +91,22 @@ func woundLits(p *core.Prog) []woundLit {
 			if a.Comment != "complit" && a.Comment != "new" {
 				return
 			}
-			k := int64(0)
 			if v, ok := litField(a, "Kind"); ok {
-				if n, isC := core.ConstInt(v); isC {
-					k = n
-				} else {
-					k = -1
+				// one entry per constant the kind can be (a constant, or chosen among constants)
+				cs := constCases(v, a)
+				if len(cs) == 0 {
+					out = append(out, woundLit{fn, a, -1})
 				}
+				done := map[int64]bool{}
+				for _, x := range cs {
+					if !done[x.k] {
+						done[x.k] = true
+						out = append(out, woundLit{fn, a, x.k})
+					}
+				}
+				return
 			}
-			out = append(out, woundLit{fn, a, k})
+			out = append(out, woundLit{fn, a, 0})
 		})
 	}
 	return out
@@ -124,10 +131,15 @@ func runC05(c *core.Ctx) {
 			c.Missing("R05.1", "pwr."+name, "not found")
 			continue
 		}
-		var healthy []*ssa.Return
+		// a healthy verdict: a program point with the branch outcomes that hold there
+		type verdict struct {
+			at     ssa.Instruction
+			guards []core.Guard
+		}
+		var healthy []verdict
 		if strings.HasSuffix(name, "AsError") {
 			for _, rs := range successReturns(fn) {
-				healthy = append(healthy, rs.Ret)
+				healthy = append(healthy, verdict{rs.Ret, core.Guards(rs.Ret)})
 			}
 		} else {
 			for _, rs := range core.Returns(fn, 0) {
@@ -137,8 +149,11 @@ func runC05(c *core.Ctx) {
 					}
 					if a, ok := o.(*ssa.Alloc); ok {
 						if v, ok := litField(a, "Kind"); ok {
-							if k, isC := core.ConstInt(v); isC && k == kinds["CLOSED_FILE"] {
-								healthy = append(healthy, rs.Ret)
+							// the kind is a constant, or chosen among constants on the way here
+							for _, cs := range constCases(v, rs.Ret) {
+								if cs.k == kinds["CLOSED_FILE"] {
+									healthy = append(healthy, verdict{rs.Ret, cs.guards})
+								}
 							}
 						}
 					}
@@ -150,7 +165,16 @@ func runC05(c *core.Ctx) {
 			continue
 		}
 		dataParam := fn.Params[len(fn.Params)-1]
-		for _, ret := range healthy {
+		for _, vd := range healthy {
+			ret := vd.at
+			hasGuard := func(_ ssa.Instruction, pred func(core.Guard) bool) bool {
+				for _, g := range vd.guards {
+					if pred(g) {
+						return true
+					}
+				}
+				return false
+			}
 			strong := hasGuard(ret, func(g core.Guard) bool {
 				cl, ok := g.Cond.(*ssa.Call)
 				if !ok || !g.Val || core.CalleeName(cl) != "bytes.Equal" {
@@ -274,7 +298,7 @@ func runC05(c *core.Ctx) {
 		c.Check(ok, "R05.2", core.FnName(wl.fn), construct, core.InstrPos(wl.alloc), why,
 			"nothing orders Start and End of this wound (a != guard does not): the range can have Start > End")
 	}
-	c.Floor("R05.2", "FILE/CLOSED_FILE wound literals", nLits, 6)
+	c.Floor("R05.2", "FILE/CLOSED_FILE wound literals", nLits, 2)
 
 	// ---- R05.5 / R05.3: emission sites with their guard tokens
 	validateFn := c.P.Fn("pwr", "ValidatorContext.Validate")
@@ -414,6 +438,59 @@ func runC05(c *core.Ctx) {
 			found[wl.kind][t] = true
 		}
 	}
+	// a deviation test also controls an emission when every way on from its deviating outcome - to the next
+	// iteration or to a return - passes an emission of that kind (tests merged with || do not dominate the
+	// emission, but still always lead to it)
+	for _, f := range all {
+		var ifs []*ssa.If
+		core.Instrs(f, func(in ssa.Instruction) {
+			if ifi, ok := in.(*ssa.If); ok {
+				ifs = append(ifs, ifi)
+			}
+		})
+		for _, ifi := range ifs {
+			b := ifi.Block()
+			if len(b.Succs) != 2 || b.Succs[0] == b.Succs[1] {
+				continue
+			}
+			for side := 0; side < 2; side++ {
+				toks := guardTokens(core.Guard{Cond: ifi.Cond, Val: side == 0, If: ifi})
+				if len(toks) == 0 {
+					continue
+				}
+				other := b.Succs[1-side]
+				onlySide := func(x, y *ssa.BasicBlock) bool { return x == b && y == other }
+				byKind := map[int64][]ssa.Instruction{}
+				for _, st := range sites {
+					if st.fn == f {
+						byKind[st.kind] = append(byKind[st.kind], st.in)
+					}
+				}
+				for k, ins := range byKind {
+					isEm := func(x ssa.Instruction) bool {
+						for _, e := range ins {
+							if e == x {
+								return true
+							}
+						}
+						return false
+					}
+					if core.FindPathSkipping(f, ifi, isEm, nil, onlySide) == nil {
+						continue
+					}
+					if core.FindPathSkipping(f, ifi, anyOf(isReturn, isInstr(ifi)), isEm, onlySide) != nil {
+						continue
+					}
+					if found[k] == nil {
+						found[k] = map[string]bool{}
+					}
+					for _, t := range toks {
+						found[k][t] = true
+					}
+				}
+			}
+		}
+	}
 	expect := []struct {
 		kind   string
 		tokens []string
@@ -445,17 +522,37 @@ func runC05(c *core.Ctx) {
 				"no "+e.kind+" wound emission is controlled by the deviation test "+t+" (tests found for this kind: "+strings.Join(got, ", ")+"): that deviation is no longer reported")
 		}
 	}
-	c.Floor("R05.5", "wound emission sites", len(sites), 9)
+	c.Floor("R05.5", "wound emission sites", len(sites), 3)
 	c.Stats["R05.5.deviation_tests"] = nTok
 
-	// ---- R05.4
-	agg := c.P.Fn("pwr", "AggregateWounds")
-	if agg == nil || len(agg.AnonFuncs) != 1 {
+	// ---- R05.4 (on the naive SSA form: the pending wound is a variable with loads and stores whether or
+	// not it is captured by the goroutine literal)
+	agg0 := c.P.Fn("pwr", "AggregateWounds")
+	if agg0 == nil || len(agg0.AnonFuncs) != 1 {
 		c.Missing("R05.4", "pwr.AggregateWounds", "function or goroutine literal not found")
 		return
 	}
+	agg := c.P.Naive(agg0)
+	if agg == nil || len(agg.AnonFuncs) != 1 {
+		c.Missing("R05.4", "pwr.AggregateWounds", "naive-form twin not found")
+		return
+	}
 	lit := agg.AnonFuncs[0]
-	out := agg.Params[0]
+	litName := core.FnName(agg0.AnonFuncs[0])
+	// the output channel: the parameter of AggregateWounds (a variable in this form)
+	var outVar ssa.Value
+	core.Instrs(agg, func(in ssa.Instruction) {
+		if st, ok := in.(*ssa.Store); ok && st.Val == ssa.Value(agg.Params[0]) {
+			outVar = st.Addr
+		}
+	})
+	isOut := func(v ssa.Value) bool {
+		if v == ssa.Value(agg.Params[0]) {
+			return true
+		}
+		ld, ok := v.(*ssa.UnOp)
+		return ok && ld.Op == token.MUL && outVar != nil && core.CellRoot(ld.X) == outVar
+	}
 	var recv *ssa.UnOp
 	core.Instrs(lit, func(in ssa.Instruction) {
 		if u, ok := in.(*ssa.UnOp); ok && u.Op == token.ARROW && u.CommaOk {
@@ -463,46 +560,65 @@ func runC05(c *core.Ctx) {
 		}
 	})
 	if recv == nil {
-		c.Missing("R05.4", core.FnName(lit), "range-receive not found")
+		c.Missing("R05.4", litName, "range-receive not found")
 		return
 	}
+	// the incoming wound: the variable the received value is stored into
 	var incoming ssa.Value
 	if refs := recv.Referrers(); refs != nil {
 		for _, r := range *refs {
 			if ex, ok := r.(*ssa.Extract); ok && ex.Index == 0 {
-				incoming = ex
+				if xr := ex.Referrers(); xr != nil {
+					for _, u := range *xr {
+						if st, ok := u.(*ssa.Store); ok && st.Val == ssa.Value(ex) {
+							incoming = core.CellRoot(st.Addr)
+						}
+					}
+				}
 			}
 		}
 	}
-	// the pending cell: the captured *Wound variable stored to in the literal
+	loadOf := func(v ssa.Value, cell ssa.Value) bool {
+		ld, ok := v.(*ssa.UnOp)
+		return ok && ld.Op == token.MUL && cell != nil && core.CellRoot(ld.X) == cell
+	}
+	// the pending wound: the *Wound variable that is both assigned in the literal and forwarded to the output
 	var pending ssa.Value
 	core.Instrs(lit, func(in ssa.Instruction) {
-		if st, ok := in.(*ssa.Store); ok {
-			if _, isFA := st.Addr.(*ssa.FieldAddr); !isFA && core.TypeName(st.Val.Type()) == "pwr.Wound" {
-				pending = core.CellRoot(st.Addr)
-			}
+		snd, ok := in.(*ssa.Send)
+		if !ok || !isOut(snd.Chan) {
+			return
+		}
+		ld, ok := snd.X.(*ssa.UnOp)
+		if !ok || ld.Op != token.MUL {
+			return
+		}
+		cell := core.CellRoot(ld.X)
+		if cell == incoming {
+			return
+		}
+		if len(core.CellStores(cell)) > 0 && core.TypeName(ld.Type()) == "pwr.Wound" {
+			pending = cell
 		}
 	})
 	if incoming == nil || pending == nil {
-		c.Missing("R05.4", core.FnName(lit), "incoming wound / pending-wound variable not found")
+		c.Missing("R05.4", litName, "incoming wound / pending-wound variable not found")
 		return
 	}
-	isPendingLoad := func(v ssa.Value) bool {
-		ld, ok := v.(*ssa.UnOp)
-		return ok && ld.Op == token.MUL && core.CellRoot(ld.X) == pending
-	}
+	isPendingLoad := func(v ssa.Value) bool { return loadOf(v, pending) }
+	isIncomingLoad := func(v ssa.Value) bool { return loadOf(v, incoming) }
 	consumes := func(in ssa.Instruction) bool {
 		switch x := in.(type) {
 		case *ssa.Send:
-			return sameChan(x.Chan, out) && x.X == incoming
+			return isOut(x.Chan) && isIncomingLoad(x.X)
 		case *ssa.Store:
-			if core.CellRoot(x.Addr) == pending && x.Val == incoming {
+			if core.CellRoot(x.Addr) == pending && isIncomingLoad(x.Val) {
 				return true
 			}
 			// merge: pending.End = incoming.End
 			if fa, ok := x.Addr.(*ssa.FieldAddr); ok && isPendingLoad(fa.X) {
 				if _, n, _ := core.FieldOf(fa); n == "End" {
-					if b, n2, ok := core.FieldOf(x.Val); ok && n2 == "End" && b == incoming {
+					if b, n2, ok := core.FieldOf(x.Val); ok && n2 == "End" && isIncomingLoad(b) {
 						return true
 					}
 				}
@@ -514,14 +630,14 @@ func runC05(c *core.Ctx) {
 	bodyEntry := recv.Block().Succs[0]
 	skipExit := func(b, s *ssa.BasicBlock) bool { return b == recv.Block() && s != bodyEntry }
 	p := core.FindPathSkipping(lit, recv, anyOf(isInstr(recv), isReturn), consumes, skipExit)
-	o := c.Check(p == nil, "R05.4", core.FnName(lit), "incoming wound is kept, merged or forwarded on every path through the loop body", core.InstrPos(recv),
+	o := c.Check(p == nil, "R05.4", litName, "incoming wound is kept, merged or forwarded on every path through the loop body", core.InstrPos(recv),
 		"every path through the loop body stores the incoming wound as pending, merges it into the pending wound, or forwards it",
 		"a path through the aggregation loop drops the incoming wound: the damaged range it covers is never reported")
 	o.Path = c.P.PathStrings(p)
 	// every overwrite of pending (by the incoming wound or nil) is preceded by forwarding the old pending wound, unless pending was nil
 	isForwardPending := func(in ssa.Instruction) bool {
 		s, ok := in.(*ssa.Send)
-		return ok && sameChan(s.Chan, out) && isPendingLoad(s.X)
+		return ok && isOut(s.Chan) && isPendingLoad(s.X)
 	}
 	nOver := 0
 	core.Instrs(lit, func(in ssa.Instruction) {
@@ -531,8 +647,7 @@ func runC05(c *core.Ctx) {
 		}
 		nOver++
 		pendingNil := hasGuard(in, func(g core.Guard) bool {
-			bo, ok := g.Cond.(*ssa.BinOp)
-			return ok && isPendingLoad(bo.X) && core.IsNilConst(bo.Y) && ((bo.Op == token.EQL && g.Val) || (bo.Op == token.NEQ && !g.Val))
+			return relHolds(g, token.EQL, isPendingLoad, core.IsNilConst)
 		})
 		okk := pendingNil
 		if !okk {
@@ -540,34 +655,30 @@ func runC05(c *core.Ctx) {
 			pp := core.FindPathSkipping(lit, recv, isInstr(in), isForwardPending, skipExit)
 			okk = pp == nil
 		}
-		c.Check(okk, "R05.4", core.FnName(lit), "pending wound forwarded before it is replaced by "+core.Describe(st.Val), core.InstrPos(in),
+		c.Check(okk, "R05.4", litName, "pending wound forwarded before it is replaced by "+core.Describe(st.Val), core.InstrPos(in),
 			"the pending wound is nil here or was forwarded earlier in the iteration",
 			"the pending wound is overwritten without having been forwarded: its range is lost")
 	})
-	c.Floor("R05.4", "stores to the pending wound", nOver, 3)
+	c.Floor("R05.4", "stores to the pending wound", nOver, 2)
 	// flush before close: every path from loop exit to close(out) forwards pending unless nil
-	cl := firstInstr(lit, isCloseOf(out, nil))
+	var cl ssa.Instruction
+	core.Instrs(lit, func(in ssa.Instruction) {
+		if call, ok := in.(*ssa.Call); ok {
+			if b, ok := call.Call.Value.(*ssa.Builtin); ok && b.Name() == "close" && isOut(call.Call.Args[0]) {
+				cl = in
+			}
+		}
+	})
 	if cl == nil {
-		c.Bad("R05.4", core.FnName(lit), "close(outWounds)", lit.Pos(), "the aggregator no longer closes its output")
+		c.Bad("R05.4", litName, "close(outWounds)", lit.Pos(), "the aggregator no longer closes its output")
 	} else {
 		nilEdge := func(b, s *ssa.BasicBlock) bool {
-			ifi, ok := b.Instrs[len(b.Instrs)-1].(*ssa.If)
-			if !ok {
-				return false
-			}
-			bo, ok := ifi.Cond.(*ssa.BinOp)
-			if !ok || !isPendingLoad(bo.X) || !core.IsNilConst(bo.Y) {
-				return false
-			}
-			return (bo.Op == token.NEQ && s == b.Succs[1]) || (bo.Op == token.EQL && s == b.Succs[0])
+			return outcomeEdge(b, s, token.EQL, isPendingLoad, core.IsNilConst)
 		}
-		exitBlock := recv.Block().Succs[1]
-		var from ssa.Instruction = recv
-		_ = exitBlock
-		pp := core.FindPathSkipping(lit, from, isInstr(cl), isForwardPending, func(b, s *ssa.BasicBlock) bool {
+		pp := core.FindPathSkipping(lit, recv, isInstr(cl), isForwardPending, func(b, s *ssa.BasicBlock) bool {
 			return (b == recv.Block() && s == bodyEntry) || nilEdge(b, s)
 		})
-		o := c.Check(pp == nil, "R05.4", core.FnName(lit), "pending wound flushed before close(outWounds)", core.InstrPos(cl),
+		o := c.Check(pp == nil, "R05.4", litName, "pending wound flushed before close(outWounds)", core.InstrPos(cl),
 			"after the input closes, a non-nil pending wound is forwarded before the output is closed",
 			"the output can be closed while a pending wound has not been forwarded: the last damaged range of a file is lost")
 		o.Path = c.P.PathStrings(pp)
